@@ -162,7 +162,9 @@ var c15Macros = []c15Macro{
 	{"[p & r]", "(begin (tr 90 ~p) ~@r)", func(a []string) string { return "(begin (tr 90 " + a[0] + ") " + strings.Join(a[1:], " ") + ")" }, 2},
 	{"[p & r]", "(let [zz ~p] (+ zz ~@r))", func(a []string) string { return "(let [zz " + a[0] + "] (+ zz " + strings.Join(a[1:], " ") + "))" }, 2},
 	{"[p & r]", "[~p ~@r ~p]", func(a []string) string { return "[" + a[0] + " " + strings.Join(a[1:], " ") + " " + a[0] + "]" }, 1},
-	{"[p q & r]", "(cond ~p ~q (+ 0 ~@r))", func(a []string) string { return "(cond " + a[0] + " " + a[1] + " (+ 0 " + strings.Join(a[2:], " ") + "))" }, 3},
+	{"[p q & r]", "(cond ~p ~q (+ 0 ~@r))", func(a []string) string {
+		return "(cond " + a[0] + " " + a[1] + " (+ 0 " + strings.Join(a[2:], " ") + "))"
+	}, 3},
 	{"[p]", "(newScope (def loc ~p) (* loc loc))", func(a []string) string { return "(newScope (def loc " + a[0] + ") (* loc loc))" }, 1},
 	{"[p q]", "(for [(def i 0) (< i ~p) (def i (+ i 1))] (set acc (+ acc ~q)))", func(a []string) string {
 		return "(for [(def i 0) (< i " + a[0] + ") (def i (+ i 1))] (set acc (+ acc " + a[1] + ")))"
